@@ -1128,7 +1128,7 @@ def hash_rules(run, r_accept, r_same, r_publish, r_checked, r_allids, ast):
             run.violation(r_checked, "checked_perfect_hash::hash_type_id|checks", why, (f["file"], f["line"]))
     for f in [f for f in _fn(ast, r"checked_perfect_hash<.*>::hash_initialize<") if len(f["params"]) == 2]:
         call = [n for n in astq.walk(f["body"]) if n.get("k") == "CallExpr" and re.search(r"fast_perfect_hash<.*>::hash_initialize<", n.get("callee") or "")]
-        ok = len(call) == 1 and (astq.refname(call[0]["c"][3]) or "").endswith("::control")
+        ok = len(call) == 1 and len(call[0].get("c") or []) > 3 and (astq.refname(call[0]["c"][3]) or "").endswith("::control")
         run.instance(r_checked, "%s: the control table is the bucket vector of the accepted scan" % short(f), (f["file"], f["line"]), ok=ok)
         if not ok:
             run.violation(r_checked, "checked_perfect_hash::hash_initialize|control", "the checked hash does not pass `control` as the bucket vector of the search", (f["file"], f["line"]))
@@ -1154,6 +1154,16 @@ def hash_rules(run, r_accept, r_same, r_publish, r_checked, r_allids, ast):
                     run.instance(r_publish, "%s: %s runs unconditionally on every update" % (short(f), what), (f["file"], n["l"]), ok=ok)
                     for c, cn in cds:
                         run.violation(r_publish, "vptr_vector::publish_vptrs|%s-conditional" % what, "%s is skipped depending on `%s`: stale hash parameters / v-table pointers of an earlier update survive" % (what, astq.text(cn) if cn else "?"), (f["file"], n["l"]))
+            # every entry - of the v-table pointer vector and of the table of addresses of an indirect policy - is rewritten by
+            # every update: with a hash, an index changes owner whenever the hash parameters change
+            istores = [n for n in astq.walk(f["body"]) if (n.get("k") == "BinaryOperator" or (n.get("k") == "CXXOperatorCallExpr" and n.get("oop") == "=")) and n.get("op", "=") == "=" and any(
+                (astq.refname(x) or "").endswith("::indirect_vptrs") for x in astq.walk((n["c"][0] if n.get("k") == "BinaryOperator" else n["c"][1])))]
+            for what, nodes in (("the v-table pointer of an id", stores), ("the address entry of an id (indirect policy)", istores)):
+                for n in nodes:
+                    cds = [(c, cn) for c, cn, blk in (_cdep_conds(f, n) or []) if c not in ("loop", "trace")]
+                    run.instance(r_publish, "%s: %s is written by every update, whatever the entry held" % (short(f), what), (f["file"], n["l"]), ok=not cds)
+                    for c, cn in cds:
+                        run.violation(r_publish, "vptr_vector::publish_vptrs|conditional-store", "%s is only written depending on `%s`: an entry whose index changed owner keeps the previous update's value" % (what, astq.text(cn)[:80] if cn else "?"), (f["file"], n["l"]))
             # order: hash_initialize before resize before the stores; hashed index
             if hi and rs and stores:
                 oko = hi[0]["l"] <= rs[0]["l"] <= min(s["l"] for s in stores)
